@@ -22,7 +22,9 @@ EXPLANATION = (
     "additional data (shared with C02). Cipher parameters per suite are decided by C20.RECORD.")
 NOT_DECIDED = ("that ciphers invert each other, CBC padding arithmetic, equality of bytes written and read "
                "under any interleaving, the TLS 1.3 padding callback's behaviour")
-TECHNIQUE = "who-may-call over resolved call graph, complementary-slice (SPLIT) dataflow, finite-domain evaluation of limits and loop guards"
+TECHNIQUE = ("who-may-call over resolved call graph, complementary-slice (SPLIT) dataflow, finite-domain evaluation "
+             "of limits; AAD / nonce / MAC input / fragmentation by interpreting the source of the named methods "
+             "over sample records with the checker's own AST evaluator (nothing of the library is run)")
 
 
 def rule_who_send(ctx):
